@@ -65,6 +65,8 @@ func init() {
 			}
 			out = append(out, Instance{Scenario: "c15_start", Params: mustJSON(StartParams{Reset: "earliest", Mode: "infinite", PartialFile: true}), Bound: 0})
 			out = append(out, Instance{Scenario: "c12_duringopen", Params: mustJSON(struct{}{}), Bound: b, Shards: 4, Note: "a started session never silently covers only part of the assignment: a stream ending while Open() still waits for another vBucket is re-opened or counted"})
+			out = append(out, Instance{Scenario: "c12_reopenfail", Params: mustJSON(ReopenFailParams{Failures: 5}), Bound: 0, Note: "a vBucket that cannot be re-opened after the bounded retries terminates the client"})
+			out = append(out, Instance{Scenario: "c12_reopenfail", Params: mustJSON(ReopenFailParams{Failures: 4}), Bound: 0, Note: "four failed attempts and a successful fifth: streaming continues"})
 			for _, w := range []string{"valid", "metadata", "membership", "leaderelection"} {
 				out = append(out, Instance{Scenario: "c15_types", Params: mustJSON(TypeParams{Which: w}), Bound: 0})
 			}
